@@ -151,7 +151,31 @@ func mkDescriptorRetyped(v c19Val, from int, probe scte35.SegmentationDescriptor
 	return d
 }
 
+// mkDescriptorDecorated: the same descriptor with everything the relations must NOT look at set to non-default
+// values afterwards: cancel indicator, duration, delivery restrictions, a UPID, components instead of program
+// segmentation.
+func mkDescriptorDecorated(v c19Val) scte35.SegmentationDescriptor {
+	d := mkDescriptor(v)
+	d.SetIsEventCanceled(true)
+	d.SetHasDuration(true)
+	d.SetDuration(gots.PTS(0x123456789))
+	if v.VSS == 0 {
+		d.SetIsDeliveryNotRestricted(false)
+		d.SetIsWebDeliveryAllowed(true)
+		d.SetDeviceRestrictions(scte35.DeviceRestrictions(2))
+		d.SetUPIDType(scte35.SegUPIDADI)
+		d.SetUPID([]byte("SIGNAL:decorated"))
+	}
+	d.SetHasProgramSegmentation(false)
+	co := scte35.CreateComponentOffset()
+	co.SetComponentTag(7)
+	co.SetPTSOffset(12345)
+	d.SetComponents([]scte35.ComponentOffset{co})
+	return d
+}
+
 type c19Grid struct {
+	d     []scte35.SegmentationDescriptor // copy with all the irrelevant fields set (cancel indicator, duration, restrictions, UPID, components)
 	vals  []c19Val
 	a, b  []scte35.SegmentationDescriptor    // two independent object copies of the same values (created / moved between signals)
 	c     []scte35.SegmentationDescriptor    // third copy: signal time realised with a non-zero pts_adjustment (decoded where possible)
@@ -177,6 +201,7 @@ func c19Build(vals []c19Val) *c19Grid {
 		}
 		g.b = append(g.b, mkDescriptorMoved(v))
 		g.c = append(g.c, mkDescriptorAdjusted(v))
+		g.d = append(g.d, mkDescriptorDecorated(v))
 		for k := range g.r {
 			from := c19RetypeFrom[k][0]
 			if from == v.Type {
@@ -279,7 +304,8 @@ func c19CheckClose(c c19TypeCase) engine.Result {
 			name     string
 		}
 		pairs := []pair{{g.a, g.b, ""}, {g.a, g.c, ",open-with-pts_adjustment"}, {g.c, g.b, ",incoming-with-pts_adjustment"}, {g.c, g.c, ",both-with-pts_adjustment"},
-			{g.r[0], g.b, ",incoming-retyped-after-queries"}, {g.r[1], g.c, ",incoming-retyped-after-queries"}, {g.a, g.r[0], ",open-retyped-after-queries"}, {g.a, g.r[1], ",open-retyped-after-queries"}}
+			{g.r[0], g.b, ",incoming-retyped-after-queries"}, {g.r[1], g.c, ",incoming-retyped-after-queries"}, {g.a, g.r[0], ",open-retyped-after-queries"}, {g.a, g.r[1], ",open-retyped-after-queries"},
+			{g.d, g.b, ",incoming-with-other-fields-set"}, {g.a, g.d, ",open-with-other-fields-set"}}
 		for _, pr := range pairs {
 			for _, i := range ins {
 				in := pr.in[i]
@@ -329,7 +355,7 @@ func c19CheckEqual(c c19EqCase) engine.Result {
 		if got := a.Equal(a); got != va.HasPTS {
 			res.Failf("Equal|reflexive-iff-pts", "%+v: Equal(self)=%v", va, got)
 		}
-		for jj := 0; jj < 4*len(g.vals); jj++ {
+		for jj := 0; jj < 5*len(g.vals); jj++ {
 			j := jj % len(g.vals)
 			vb := g.vals[j]
 			b := g.b[j]
@@ -341,6 +367,8 @@ func c19CheckEqual(c c19EqCase) engine.Result {
 				b, how = g.r[0][j], ",other-retyped-after-queries"
 			case 3:
 				b, how = g.r[1][j], ",other-retyped-after-queries"
+			case 4:
+				b, how = g.d[j], ",other-with-other-fields-set"
 			}
 			res.Evals++
 			ab, ba := a.Equal(b), b.Equal(a)
@@ -479,7 +507,7 @@ func init() {
 		Scenarios: []engine.ScenarioRunner{
 			&engine.Enum[c19TypeCase]{
 				Name: "closing-table",
-				Rule: "case = incoming type (all 256); Check evaluates CanClose of its 54 grid descriptors (event {1,2} x PTS {100,200,none,none in the command but PTS() 200 through the adjustment} x (num,exp) {(1,1),(1,2),(2,1)} x sub-segment {absent,(1,1),(1,2)}) against all 13824 grid descriptors of all 256 open types, i.e. every value of (type, type, event-equal, PTS-equal, num==expected) and of the fields the relation must NOT depend on; plus IsIn/IsOut of the type; repeated for 8 (incoming, open) realisations: created x moved between signals, signal time carried as pts_time + pts_adjustment 100 (decoded from a reference section where the value is encodable) on either or both sides, and descriptors that got their type by SetTypeID only after having answered CanClose/Equal/IsIn/IsOut under another rule-bearing type (from 0x10 and from 0x35) on either side",
+				Rule: "case = incoming type (all 256); Check evaluates CanClose of its 54 grid descriptors (event {1,2} x PTS {100,200,none,none in the command but PTS() 200 through the adjustment} x (num,exp) {(1,1),(1,2),(2,1)} x sub-segment {absent,(1,1),(1,2)}) against all 13824 grid descriptors of all 256 open types, i.e. every value of (type, type, event-equal, PTS-equal, num==expected) and of the fields the relation must NOT depend on; plus IsIn/IsOut of the type; repeated for 10 (incoming, open) realisations (the last two: a copy on which every field the relation must not look at - cancel indicator, duration, delivery restrictions, UPID, components - was set afterwards, as incoming and as open descriptor): created x moved between signals, signal time carried as pts_time + pts_adjustment 100 (decoded from a reference section where the value is encodable) on either or both sides, and descriptors that got their type by SetTypeID only after having answered CanClose/Equal/IsIn/IsOut under another rule-bearing type (from 0x10 and from 0x35) on either side",
 				Gen: func(r *engine.Run, emit func(c19TypeCase)) {
 					for t := 0; t < 256; t++ {
 						emit(c19TypeCase{t})
